@@ -358,6 +358,18 @@ pub fn run(ctx: &Ctx) -> Report {
     }
     st.samples.truncate(2);
     total.merge(st);
+    // requests that a registry keyed by a concatenation of their parts would take for one
+    let twins = crate::combo::concat_twin_trees();
+    let tw = run_shards(16, |shard| {
+        let mut st = Stats::new();
+        for (i, t) in twins.iter().enumerate().filter(|(i, _)| i % 16 == shard) {
+            let v = judge(t);
+            st.record(&v, stable_hash(t), true, || case_json(t));
+        }
+        st.samples.truncate(1);
+        st
+    });
+    total.merge(tw);
     // interaction triples: three leaf kinds under every operator skeleton
     let tr = crate::combo::run_triples(ctx.seed, &crate::combo::supported_kinds(), ctx.tier.pick(48, 3), judge, case_json);
     total.merge(tr);
